@@ -843,27 +843,111 @@ def probe_flow_gf(scratch):
     return (not bad), bad, c
 
 
+
+# wave 5: the IR node `sum` that StockExpressions builds (inside PREVIOUS(...)), for every branch and up to 6 names, as Lean data;
+# the kernel decides `builderOK` (IR node for node = model `sumS`, tokens = model text); the general theorem
+# `builder_stock_text` then covers every n, m
+BUILDER_SHAPES = sorted({(a, b) for a in range(4) for b in range(4)} | {(n, 0) for n in (4, 5, 6)} | {(0, n) for n in (4, 5, 6)}
+                        | {(n, n) for n in (4, 5, 6)} | {(1, 6), (6, 1), (2, 5)})
+SIR_OPS = {"+": ".add", "-": ".sub", "*": ".mul"}
+
+
+def sir_lean(node):
+    """IR node -> Lean term of type Bptk.C04.SIR; anything the model has no constructor for becomes an identifier that cannot match"""
+    if isinstance(node, bool):
+        return '(.ident "UNMODELLED bool")'
+    if isinstance(node, (int, float)):
+        return ".zero" if node == 0 else ".minus1" if node == -1 else f'(.ident "UNMODELLED number {node}")'
+    if isinstance(node, dict):
+        ty, name = node.get("type"), node.get("name")
+        if ty == "nothing":
+            return ".nothing"
+        if ty == "identifier":
+            return f"(.ident {pyfrag.lean_str(name)})"
+        if ty == "operator" and name == "()" and len(node["args"]) == 1:
+            return f"(.paren {sir_lean(node['args'][0])})"
+        if ty == "operator" and name in SIR_OPS and len(node["args"]) == 2:
+            return f"(.op {SIR_OPS[name]} {sir_lean(node['args'][0])} {sir_lean(node['args'][1])})"
+    return f'(.ident {pyfrag.lean_str("UNMODELLED " + json.dumps(node, default=str)[:60])})'
+
+
+def joined_expected(names):
+    if not names:
+        return ".nothing"
+    if len(names) == 1:
+        return f"(.ident {pyfrag.lean_str(names[0])})"
+    return f"(.op .add (.ident {pyfrag.lean_str(names[0])}) {joined_expected(names[1:])})"
+
+
+def sum_expected(ins, outs):
+    """harness-side prediction of the model's `sumS` (only used to SELECT which obligation is stated; the kernel decides it)"""
+    if not ins and not outs:
+        return ".zero"
+    if not outs:
+        return f"(.paren {joined_expected(ins)})"
+    if not ins:
+        return f"(.paren (.op .mul .minus1 (.paren {joined_expected(outs)})))"
+    return f"(.paren (.op .sub {joined_expected(ins)} (.paren {joined_expected(outs)})))"
+
+
+def probe_builder(shapes=BUILDER_SHAPES):
+    """[(ins, outs, sum node as Lean SIR, predicted, token words, text)] from the real StockExpressions + parseExpression"""
+    from BPTK_Py.sdcompiler.plugins import StockExpressions
+    from BPTK_Py.sdcompiler.generator.py.py import parseExpression
+    import copy
+    out = []
+    for ni, no in shapes:
+        ins, outs = [nm(1 + i) for i in range(ni)], [nm(1 + ni + i) for i in range(no)]
+        ent = {"name": "e0", "inflow": list(ins), "outflow": list(outs), "equation_parsed": [7.5]}
+        IR = StockExpressions({"models": {"": {"name": "", "entities": {"stock": [ent], "flow": []}}}})
+        expr = IR["models"][""]["entities"]["stock"][0]["equation_parsed"]
+        try:
+            node = expr["args"][2]["args"][1]["args"][1]["args"][0]      # IF(.., init, PREVIOUS(s) + DT * PREVIOUS(sum))
+        except Exception:
+            node = {"type": "unreachable"}
+        lean = sir_lean(copy.deepcopy(node))
+        text = str(parseExpression(copy.deepcopy(expr)))
+        out.append((ins, outs, lean, sum_expected(ins, outs), pyfrag.lex(text), text))
+    return out
+
+
 def lean_list(xs):
     return "[" + ", ".join(xs) + "]"
 
 
-def gen_lean(skels, normalises):
+def gen_lean(skels, normalises, bprobes=(), skel_ok=True, builder_ok=True):
     rows = []
     for ni, no, _text, words in skels:
         toks = ", ".join(pyfrag.lean_tok(w) for w in words)
         rows.append(f"  ({ni}, {no}, [{toks}])")
+    brows = []
+    for ins, outs, lean, _pred, words, _text in bprobes:
+        toks = ", ".join(pyfrag.lean_tok(w) for w in words)
+        brows.append('  { s := "e0", ins := [' + ", ".join(pyfrag.lean_str(x) for x in ins) + "], outs := [" + ", ".join(pyfrag.lean_str(x) for x in outs)
+                     + f"],\n    ir := {lean},\n    toks := [{toks}] }}")
     b = "true" if normalises else "false"
     body = ("theorem holds : C04_full cfg := C04_full_of_good cfg (by decide)\n#print axioms holds\n" if normalises else
             "theorem violated : ¬ C04_full cfg := C04_witness_raw_keys cfg (by decide)\n#print axioms violated\n"
             "#print axioms C04_partial\n")
+    skel_ob = ("/-- every probed stock equation (0..3 inflows x 0..3 outflows) is, token for token, the intended\n"
+               "parenthesised skeleton, and denotes the `Tm` code that `compile` assigns to the stock -/\n"
+               "theorem xmile_skeleton_ok : skeletonsOK skeletons = true := by decide +kernel\n#print axioms xmile_skeleton_ok\n" if skel_ok else
+               "/-- some probed stock equation is NOT the intended skeleton -/\n"
+               "theorem xmile_skeleton_not_ok : skeletonsOK skeletons = false := by decide +kernel\n#print axioms xmile_skeleton_not_ok\n")
+    bld_ob = ("/-- wave 5: the `sum` node StockExpressions builds is, node for node, the model's `sumS` in every branch (1, 2, 3 .. 6 names)\n"
+              "and the emitted tokens are the model's text; with `builder_stock_text` (all n, m) this is the syntax tie -/\n"
+              "theorem xmile_builder_ok : builderOK bprobes = true := by decide +kernel\n#print axioms xmile_builder_ok\n"
+              "example := builder_sound bprobes xmile_builder_ok\n" if builder_ok else
+              "/-- the builder's IR / text is NOT the model's; `bare_outflows_witness` shows what the only-outflows branch without its\n"
+              "inner `()` node denotes -/\n"
+              "theorem xmile_builder_not_ok : builderOK bprobes = false := by decide +kernel\n#print axioms xmile_builder_not_ok\n"
+              "#print axioms bare_outflows_witness\n")
     return ("import Bptk.Props.C04\n/-! GENERATED by harness/props/c04.py from /repo on every run — do not edit. -/\n"
             "namespace Bptk.C04.Gen\nopen Bptk.Py in\n"
             "def skeletons : List (Nat × Nat × List Bptk.Py.Tok) := [\n" + ",\n".join(rows) + "]\n"
+            "open Bptk.Py in\ndef bprobes : List BProbe := [\n" + ",\n".join(brows) + "]\n"
             f"def cfg : Cfg := {{ memoNormalises := {b} }}\n"
-            "/-- every probed stock equation (0..3 inflows x 0..3 outflows) is, token for token, the intended\n"
-            "parenthesised skeleton, and denotes the `Tm` code that `compile` assigns to the stock -/\n"
-            "theorem xmile_skeleton_ok : skeletonsOK skeletons = true := by decide +kernel\n"
-            "#print axioms xmile_skeleton_ok\n" + body + "end Bptk.C04.Gen\n")
+            + skel_ob + bld_ob + body + "end Bptk.C04.Gen\n")
 
 
 # ---------------------------------------------------------------- run
@@ -905,7 +989,17 @@ def _run2(chk, scratch, bp):
     chk.notes["cfg"] = {"memoNormalises": normalises}
     chk.notes["probe_flow_gf_applied"] = flow_gf_ok
     chk.notes["skeleton_texts"] = {f"{a}in{b}out": t for a, b, t, _ in skels}
-    ok, why = chk.prove(gen_lean(skels, normalises), extra_sources=["Bptk/Core/PyFrag.lean", "Bptk/Proofs/PyFrag.lean"])
+    bprobes = probe_builder()
+    bld_bad = [(len(i), len(o), lean, pred, text) for i, o, lean, pred, _w, text in bprobes if lean != pred]
+    skel_reply = drive("C04", [f"skel|{ni}|{no}|" + " ".join(words) for ni, no, _t, words in skels])
+    skel_bad = [(ni, no, text) for (ni, no, text, _w), r in zip(skels, skel_reply) if r != "ok"]
+    bld_tok_reply = drive("C04", [f"skel|{len(i)}|{len(o)}|" + " ".join(w) for i, o, _l, _p, w, _t in bprobes])
+    bld_tok_bad = [(len(i), len(o), text) for (i, o, _l, _p, _w, text), r in zip(bprobes, bld_tok_reply) if r != "ok"]
+    builder_ok = not bld_bad and not bld_tok_bad
+    chk.notes["builder_probe"] = {"shapes": [f"{len(i)}/{len(o)}" for i, o, *_ in bprobes], "ir_differs": [(a, b, l, p) for a, b, l, p, _ in bld_bad][:4],
+                                  "text_differs": bld_tok_bad[:4], "skeleton_differs": skel_bad[:4]}
+    ok, why = chk.prove(gen_lean(skels, normalises, bprobes, skel_ok=not skel_bad, builder_ok=builder_ok),
+                        extra_sources=["Bptk/Core/PyFrag.lean", "Bptk/Proofs/PyFrag.lean"])
     chk.cov["trusted_base"] = [
         "Lean 4.33 kernel; axioms propext, Classical.choice, Quot.sound (audited per run via #print axioms); decide +kernel on Float literals for the drift witness only",
         "model lean/Bptk/Core/C04.lean of the generated class (memoize, equations) and of StockExpressions' output; tied to /repo per run by the skeleton probe (token equality + denotation), by the per-model check that every emitted equation text denotes compile M, and by the bit-exact simulation correspondence",
@@ -913,6 +1007,8 @@ def _run2(chk, scratch, bp):
         "CPython float + - * / comparisons = IEEE double = Lean Float; scipy interp1d (LERP interior) is opaque: compared with tolerance 1e-12",
         "time keys: the normalising memoize is represented by the hypothesis GridOK (normalised t-dt from label k+1 is label k), discharged (a) for the rational model with bounded rounding error (normalize_keys_on_grid), (b) wave 2: for C05's float adversary Fl on every decimal grid under C05's explicit Budget (gridOK_of_C05, from Bptk.C05.normalize_near), and checked clause by clause on the doubles of every case (grid_time = util normalize bit for bit, normLabel, prevLabel, memo keys = labels)",
         "wave 2: IEEE doubles as an instance of Bptk.C05.Fl (bounded relative error, monotone, idempotent) and the Budget inequalities for u = 2^-53 are C05's trusted part; reciprocal dt that are not decimal fractions (1/3, 1/7, ...) are outside C05's Grid (decimal start and step) - for them the key clauses are checked on the doubles of every run only",
+        "wave 5: StockExpressions' IR builder is modelled for ANY lists of inflows / outflows (sumS, joinedS, renderS); tied per run by the kernel-decided builderOK on the real "
+        "IR nodes and tokens of every branch with 1, 2, 3 .. 6 names; that the sum node sits where the probe looks (IF / + / * / PREVIOUS frame) is checked by the token equality of the whole stock text",
         "wave 2: element names e<n> for any n via the proved coding nameIx (nmG n) = n; shapes beyond 0..3 x 0..3 are compared token for token by the driver (skeletonTextOK / skeletonTextNNOK), parse + denotation for any n is skeletonTextOK_sound / stock_text_denotes",
     ]
     chk.assumptions = ["acyclic models (a rank function on same-time references exists)",
@@ -1127,13 +1223,19 @@ def _run2(chk, scratch, bp):
         lab, got, want = bad_probe[0]
         chk.add_finding("xmile-not-euler", f"probe: stock with inflow 1, dt 0.1: S({lab!r}) = {got!r}, Euler gives {want!r}",
                         {"case": probe_case.to_json(), "detail": {"bad": bad_probe[:5]}, "dt": "0.1"})
+    have_input = first_fail is not None or not flow_gf_ok or not normalises      # a finding with a concrete failing input was reported above
+    if (skel_bad or not builder_ok) and not have_input:
+        a, b, text = (skel_bad or bld_tok_bad or [(x[0], x[1], x[4]) for x in bld_bad])[0]
+        chk.add_finding("obligation", f"StockExpressions no longer builds the modelled net-flow node ({a} inflows / {b} outflows: {text[:200]}); "
+                        "kernel proved xmile_builder_not_ok / xmile_skeleton_not_ok, and no generated graph showed a wrong trajectory",
+                        {"theorem": "Bptk.C04.Gen.xmile_builder_not_ok", "builder_probe": chk.notes["builder_probe"]}, found_input=False)
     if not ok:
         chk.add_finding("obligation", f"proof obligations of C04 no longer check: {why}",
                         {"theorem": "Bptk.C04.Gen.xmile_skeleton_ok / holds", "detail": why,
                          "skeletons": {f"{a}in{b}out": t for a, b, t, _ in skels}}, found_input=False)
-    if corr_fail is not None and first_fail is None:
+    if corr_fail is not None and not have_input:
         chk.add_finding("correspondence", corr_fail[1], dict(corr_fail[2], stream=corr_fail[0]), found_input=False)
-    elif keys_fail is not None and first_fail is None and normalises:
+    elif keys_fail is not None and not have_input:
         ci, c, kb = keys_fail
         chk.add_finding("correspondence", f"case {ci}: the time keys of the generated memoize leave the grid (GridOK hypothesis of "
                         f"xmile_run_eq_euler / gridOK_of_C05 fails on doubles): {kb}", {"case": c.to_json(), "stream": "grid-keys", "detail": kb},
